@@ -142,7 +142,8 @@ def or_dash(s):
     return s if s else "-"
 
 
-EXC = {IndexError: "err Index", AttributeError: "err Attribute", NotImplementedError: "err NotImplemented", ValueError: "err Value"}
+EXC = {IndexError: "err Index", AttributeError: "err Attribute", NotImplementedError: "err NotImplemented", ValueError: "err Value",
+       ZeroDivisionError: "err ZeroDivision"}
 
 
 def exc_tok(e):
@@ -150,6 +151,17 @@ def exc_tok(e):
         if isinstance(e, t):
             return s
     return "err " + type(e).__name__
+
+
+def release_widgets():
+    """outside a server solara keeps every comm it ever created, with the stack trace of its creation, in a module-level
+    dict (solara.comm.orphan_comm_stacks): ~0.4 MB per ctrl scenario, gigabytes over a thorough run's workers"""
+    try:
+        import solara.comm
+
+        solara.comm.orphan_comm_stacks.clear()
+    except Exception:  # noqa: S110
+        pass
 
 
 def render_context(element):
@@ -364,7 +376,8 @@ class SpaceImpl:
         if fam == "vor":
             xs = [s[0] for s in self.sites]
             ys = [s[1] for s in self.sites]
-            return (180 / max(max(xs) - min(xs), max(ys) - min(ys))) ** 2
+            # fix V15: centroids without extent (one cell) are sized like a single cell
+            return (180 / (max(max(xs) - min(xs), max(ys) - min(ys)) or 1)) ** 2
         pos = self.net_layout()
         x, y = list(zip(*pos.values()))
         # fix V12: a layout without extent (one node) is sized like a single cell
@@ -817,6 +830,14 @@ class ParamsImpl:
         self.f = None
         self.sig = None
         self.trace = []
+        self.rcs = []
+
+    def close(self):
+        for rc in self.rcs:
+            try:
+                rc.close()
+            except Exception:  # noqa: S110
+                pass
 
     def check_tok(self, call):
         try:
@@ -917,7 +938,10 @@ class ParamsImpl:
         self.widgets = {}
         with mock.patch.multiple(solara, **{a: spy(k, getattr(solara, a)) for a, k in kinds.items()}):
             try:
-                solara.render(sv.ModelCreator(solara.reactive(inst), params, model_parameters=self.mp), handle_error=False)
+                el = sv.ModelCreator(solara.reactive(inst), params, model_parameters=self.mp)
+                rc, container = render_context(el)
+                self.rcs.append(rc)  # kept open for the `change` ops that follow, closed with the scenario
+                rc.render(el, container)
             except ValueError as e:
                 t = str(e)
                 self.mp = None
@@ -979,7 +1003,7 @@ class ParamsImpl:
             params = {n: self.make_value(v) for n, v in items}
             klass = type("M", (), {"__init__": self.f})
             inst = object.__new__(klass)
-            out = self.check_tok(lambda: solara.render(sv.ModelCreator(solara.reactive(inst), params), handle_error=False))
+            out = self.check_tok(lambda: render_once(sv.ModelCreator(solara.reactive(inst), params)))
             keys = [n for n, _ in items]
             self.trace.append(("creator", self.src, keys, out, self.callable_with(keys), any(p[1] == "vp" for p in self.sig)))
             return out
@@ -1263,6 +1287,7 @@ def run_impl(sc):
     finally:
         if hasattr(impl, "close"):
             impl.close()
+        release_widgets()
     sc.meta["trace"] = impl.trace
     return obs
 
@@ -1325,16 +1350,22 @@ def gen_drawlayers(R, names):
 def gen_space(R, tier):
     fam = R.choice(FAMILIES + ("multi", "moore", "hex", "hexm", "netgrid", "net"))
     w, h = R.choice([1, 2, 2, 3, 3, 4, 5]), R.choice([1, 2, 3, 3, 4, 5])
+    if fam in GRID_LEGACY + ("cs",) and R.random() < 0.04:
+        # a space without room (only the mesa.space classes can be built that small): draw_space raises on 0 x 0
+        # (its default size), Altair on width or height 0 (its default mark size)
+        w, h = R.choice([(0, 0), (0, 0), (0, 3), (2, 0)])
     extra, cells = [], None
     if fam in NETS:
         n = R.choice([1, 2, 2, 3, 3, 4, 5, 6])  # one node: a layout without extent (V12)
+        if R.random() < 0.03:
+            n = 0  # a network without nodes: draw_network raises
         labels = list(range(n)) if R.random() < 0.4 else R.sample(range(0, 9), n)
         if R.random() < 0.5:
             R.shuffle(labels)
         extra = labels
         cells = [(lab, 0) for lab in labels]
     elif fam == "vor":
-        pts = R.sample(VOR_POINTS, R.randint(3, 6))
+        pts = R.sample(VOR_POINTS, R.choice([1, 1, 2, 3, 3, 4, 5, 6]))  # one centroid: no extent (V15)
         extra = [c for p in pts for c in p]
         cells = list(pts)
     elif fam in GRIDS:
@@ -1355,7 +1386,8 @@ def gen_space(R, tier):
 
     def pick_loc(vid):
         if cells is None:
-            return R.randrange(w), R.randrange(h)
+            # a continuous space without room: a place that both sides refuse
+            return (R.randrange(w), R.randrange(h)) if w and h else (0, 0)
         free = [c for c in cells if not (fam in EXCLUSIVE and occ.get(c) not in (None, vid))]
         if not free:
             return None
@@ -1410,7 +1442,7 @@ def gen_space(R, tier):
             lines.append(observe())
     for _ in range(R.randint(1, 3)):
         lines.append(observe())
-    if fam in GRIDS and R.random() < 0.5:
+    if fam in GRIDS and w * h > 0 and R.random() < 0.5:
         def layer_vals():
             vals = [R.randrange(10) for _ in range(w * h)]
             if R.random() < 0.12:
@@ -1870,6 +1902,17 @@ def oracle_ctrl(tr):
     return bad
 
 
+def no_room(w0):
+    """space scenarios on a space that cannot hold an agent and that draw_space / Altair refuse for its size (outside the
+    property's quantifier: there is no occupancy state to show): (draw_space refuses, Altair refuses)"""
+    fam, w, h = w0[2], int(w0[3]), int(w0[4])
+    if fam in GRID_LEGACY + ("cs",):
+        return (w == 0 and h == 0, w == 0 or h == 0)
+    if fam in NETS:
+        return (len(w0) == 5, False)
+    return (False, False)
+
+
 def oracle(sc, obs):
     bad = []
     tr = sc.meta.get("trace") or []
@@ -1877,6 +1920,7 @@ def oracle(sc, obs):
     if w0[1] == "ctrl":
         return oracle_ctrl(tr)
     fam = w0[2] if w0[1] == "space" else None
+    draw_refuses, altair_refuses = no_room(w0) if fam else (False, False)
     for ev in tr:
         kind = ev[0]
         if kind == "collect":
@@ -1917,6 +1961,8 @@ def oracle(sc, obs):
                 continue
             if kw:
                 snap = [(v, loc, {**d, **{k: to_py(k, t) for k, t in kw.items()}}) for v, loc, d in snap]
+            if err is not None and draw_refuses and not snap:
+                continue
             if err is not None:
                 key = partial_optional(snap)
                 if key and err.startswith("err Index"):
@@ -1935,7 +1981,7 @@ def oracle(sc, obs):
         elif kind == "altair":
             if ev[3] is not None:
                 _, snap, rows, err, _hb, _ha = ev
-                if fam in ALTAIR_OK:
+                if fam in ALTAIR_OK and not (altair_refuses and not snap):
                     bad.append(f"altair-raised: _draw_grid raised {err} with {len(snap)} agents in the space")
                 continue
             _, snap, rows, err, facts, _hb, _ha = ev
@@ -1950,6 +1996,12 @@ def oracle(sc, obs):
                     bad.append(f"altair-encoding: the chart encodes {ch}, no row has it")
                 if rows and all(ch in d for _, _, d in snap) and ch not in facts["enc"]:
                     bad.append(f"altair-encoding: every agent is portrayed with a {ch}, the chart does not encode it")
+                # open finding A1: the channel is read off the first row, so with a key that some agents return and others do
+                # not, either returned values are not shown (no channel) or marks have no value for the channel
+                has = [ch in d for _, _, d in snap]
+                if rows and any(has) and not all(has):
+                    bad.append(f"altair-encoding-first-row: {sum(has)} of {len(has)} agents are portrayed with a {ch}; the chart "
+                               f"{'encodes it (rows without a value)' if ch in facts['enc'] else 'does not encode it (returned values not shown)'}")
             if ("size" in facts["enc"]) == (facts["mark"] != "-"):
                 bad.append(f"altair-mark-size: size encoded: {'size' in facts['enc']}, default mark size {facts['mark']}")
             if facts["type"] != "point" or facts["filled"] is not True:
@@ -1959,6 +2011,8 @@ def oracle(sc, obs):
         elif kind == "sdefault":
             _, n, tok = ev
             # the default size is a positive finite number whenever there is an agent to draw (V12)
+            if tok.startswith("err") and draw_refuses and n == 0:
+                continue
             if tok.startswith("err") or (n > 0 and tok in ("none", "several", "?", "inf", "nan")) or (n == 0 and tok != "none"):
                 bad.append(f"default-size: with {n} agents in the space the default marker size is {tok}")
         elif kind == "layer-mutated":
@@ -1970,7 +2024,7 @@ def oracle(sc, obs):
             known = [sp for sp in specs if sp[0] in datas]
             if with_agents and not specs:
                 # draw_space skips an empty request: nothing to refuse, nothing to draw
-                if err is not None or res:
+                if (err is not None and not draw_refuses) or res:
                     bad.append(f"layers-empty-request: draw_space with an empty layer request gave {err or res}")
                 continue
 
